@@ -7,6 +7,7 @@ from synkit.CRN.Hypergraph import conversion as CV
 from pyvc import gen
 
 K_NORM = "synkit/CRN/Hypergraph/rxn.py::RXNSide._normalize_any"
+K_EXP = "synkit/CRN/Hypergraph/conversion.py::hypergraph_to_bipartite"
 
 
 def snapshot(H):
@@ -54,6 +55,12 @@ def check_network(tw, rxns, rules, mols, ids, fails, tags):
             bad("bipartite round trip", "integer_ids=%s: molecule labels %s, original %s" % (integer_ids, dict(H2.species_to_mol), molmap), "bipartite-mol")
         if snapshot(H) != snap:
             bad("hypergraph_to_bipartite", "export modified the network", "frame")
+    # (1b) the exporter's contract (the one under proof) evaluated on the real function, both settings of the edge-id attribute
+    for flag in (False, True):
+        out, v = tw.check_call(K_EXP, lambda H, include_edge_id_attr: CV.hypergraph_to_bipartite(H, include_edge_id_attr=include_edge_id_attr),
+                               dict(H=H, include_edge_id_attr=flag))
+        if out[0] != "return" or v:
+            bad("hypergraph_to_bipartite", "contract on the real function: %s %s" % (out[0] if out[0] != "return" else "", list(v)), "exporter-contract", {"eid": flag})
     # (2) reaction strings
     for sort in (True, False):
         try:
